@@ -253,11 +253,33 @@ class MerchantEngine:
                 elif key == 'merchant':
                     current_rule['merchant'] = value
                 elif key == 'tags':
-                    # Parse comma-separated tags, but don't split inside parentheses
+                    # Parse comma-separated tags, but don't split inside parentheses.
+                    # Inside a dynamic {expression} tag, parentheses and commas within a
+                    # string literal (e.g. {split(description, "(", 0)}) are plain text.
                     tags = set()
                     depth = 0
+                    braces = 0
+                    quote = None
+                    escaped = False
                     current = []
                     for char in value:
+                        if quote:
+                            current.append(char)
+                            if escaped:
+                                escaped = False
+                            elif char == '\\':
+                                escaped = True
+                            elif char == quote:
+                                quote = None
+                            continue
+                        if braces and char in ('"', "'"):
+                            quote = char
+                            current.append(char)
+                            continue
+                        if char == '{':
+                            braces += 1
+                        elif char == '}' and braces:
+                            braces -= 1
                         if char == '(':
                             depth += 1
                             current.append(char)
